@@ -177,6 +177,22 @@ PROPS["C06"] = {
 }
 
 
+PROPS["C10"] = {
+    "module": "PropC10",
+    "theorems": ["C10_partition", "C10_lookup", "C10_languages", "C10_most_probable_language", "C10_unicode_ranges"],
+    "runs": [detect_run("C10", 300, 5000), {"level": "container", "args_quick": ["--n", "200"], "args_thorough": ["--n", "5000"]}],
+    "search": detect_search("C10"),
+    "rule": DETECT_RULE + "; every result is checked for: no encoding twice, alternatives share text and chaos with their match, distinct "
+            "matches differ in text or chaos, languages without repeats and within the tied language, most probable language by the "
+            "stated cases, unicode_ranges sorted / duplicate free / equal to the per-character union, lookup by every candidate name "
+            "and by every label of a 66-spelling pool that canonicalises to it",
+    "assumptions": ["inputs up to TOO_BIG_SEQUENCE for the partition statement (as the property)",
+                    "CmpLaws.law_abs_sub_sym (|x-y| = |y-x|) is a hypothesis of C10_partition",
+                    "MergeNoDup / MergeSub / CohInclude contracts on the coherence oracles (asserted on every real answer; refined by the Cd model)"],
+    "trusted": [],
+}
+
+
 def _tok(line):
     return line.split(" ")
 
